@@ -45,7 +45,7 @@ const CONTEXTS: [Context; 10] = [
     Context { name: "device-tiny20", prefix: ".device ATtiny20\n" },
     Context { name: "device-tiny11", prefix: ".device ATtiny11\n" },
     Context { name: "cyclic-equ", prefix: ".equ cyc_a = cyc_b + 1\n.equ cyc_b = cyc_a\n.equ a = a\n" },
-    Context { name: "self-calling-macro", prefix: ".macro selfm\nselfm @0\n.endm\n.macro ping\npong\n.endm\n.macro pong\nping\n.endm\n" },
+    Context { name: "self-calling-macro", prefix: ".macro selfm\nselfm @0\n.endm\n.macro ping\npong\n.endm\n.macro pong\nping\n.endm\n.macro selfseg\n.eseg\n.db 1\n.cseg\nselfseg\n.endm\n.macro selforg\nnop\n.org 0x40\nselforg\n.endm\n.macro selfdseg\n.dseg\nselfdseg\n.endm\n.macro selfgrow\nselfgrow @0+@0\n.endm\n.macro selfif\n.if 1\nselfif\n.endif\n.endm\n" },
     Context { name: "open-if-0", prefix: ".if 0\n" },
     Context { name: "open-macro", prefix: ".macro never_closed\n" },
     Context { name: "after-label-and-def", prefix: "lbl: nop\n.def dreg = r20\n.set svar = 3\n" },
@@ -125,6 +125,9 @@ pub fn run(tier: Tier) -> i32 {
     heads.push("unknownname".into());
     heads.push("selfm".into());
     heads.push("ping".into());
+    for h in ["selfseg", "selforg", "selfdseg", "selfgrow", "selfif"] {
+        heads.push(h.into());
+    }
     heads.push("LDI".into());
     let max_ops = if tier.thorough() { 3 } else { 2 };
     // operand lists
@@ -234,6 +237,55 @@ pub fn run(tier: Tier) -> i32 {
             s.push_str(&format!(".device ATtiny13\ndm{}\n", m));
             s
         });
+        // doubling chains whose bodies place nothing, and an argument that doubles per level
+        probe(&mut cases, &mut meta, "empty-macro-doubling-chain", n, {
+            let m = [10usize, 14, 18, 24, 40][ladder.iter().position(|x| *x == n).unwrap_or(0)];
+            let mut s = String::from(".macro em0\n.endm\n");
+            for i in 1..=m {
+                s.push_str(&format!(".macro em{}\nem{}\nem{}\n.endm\n", i, i - 1, i - 1));
+            }
+            s.push_str(&format!("em{}\nnop\n", m));
+            s
+        });
+        probe(&mut cases, &mut meta, "conditional-only-macro-doubling-chain", n, {
+            let m = [10usize, 14, 18, 24, 40][ladder.iter().position(|x| *x == n).unwrap_or(0)];
+            let mut s = String::from(".macro cm0\n.if 0\nnop\n.endif\n.endm\n");
+            for i in 1..=m {
+                s.push_str(&format!(".macro cm{}\ncm{}\ncm{}\n.endm\n", i, i - 1, i - 1));
+            }
+            s.push_str(&format!("cm{}\nnop\n", m));
+            s
+        });
+        probe(&mut cases, &mut meta, "macro-argument-doubling", n, {
+            let m = [4usize, 8, 16, 32, 60][ladder.iter().position(|x| *x == n).unwrap_or(0)];
+            // a chain of m macros, each passing its argument on twice: the text doubles per level
+            let mut s = String::from(".macro ga0\n.dw @0\n.endm\n");
+            for i in 1..=m {
+                s.push_str(&format!(".macro ga{}\nga{} @0+@0\n.endm\n", i, i - 1));
+            }
+            s.push_str(&format!("ga{} 1\n", m));
+            s
+        });
+        // many calls / definitions: anything worse than linear shows at the top of the ladder
+        probe(&mut cases, &mut meta, "many-macro-calls", n, format!(".macro one\nnop\n.endm\n{}", "one\n".repeat(n.min(16000))));
+        probe(&mut cases, &mut meta, "many-macro-calls-with-argument", n, format!(".macro onea\nldi r16, @0\n.endm\n{}", "onea 1\n".repeat(n.min(9000))));
+        probe(&mut cases, &mut meta, "many-macro-calls-switching-segment", n, format!(".macro sw\n.dseg\n.byte 1\n.cseg\nnop\n.endm\n{}", "sw\n".repeat(n.min(3000))));
+        probe(&mut cases, &mut meta, "many-macro-definitions", n, (0..n.min(3000)).map(|i| format!(".macro d{}\nnop\n.endm\n", i)).collect::<String>());
+        probe(&mut cases, &mut meta, "many-equs-used", n, {
+            let m = n.min(2500);
+            let mut s: String = (0..m).map(|i| format!(".equ q{} = {}\n", i, i)).collect();
+            s.push_str(&(0..m).map(|i| format!(".dw q{}\n", i)).collect::<String>());
+            s
+        });
+        probe(&mut cases, &mut meta, "many-sets-of-one-name", n, (0..n.min(5000)).map(|i| format!(".set v = {}\n", i)).collect::<String>() + ".dw v\n");
+        probe(&mut cases, &mut meta, "many-segment-switches", n, ".dseg\n.byte 1\n.cseg\nnop\n".repeat(n.min(2500)));
+        probe(&mut cases, &mut meta, "many-orgs", n, (0..n.min(5000)).map(|i| format!(".org {}\nnop\n", 2 * i + 1)).collect::<String>());
+        probe(&mut cases, &mut meta, "many-forward-branches", n, {
+            let m = n.min(3000);
+            let mut s: String = (0..m).map(|i| format!("rjmp f{}\n", i)).collect();
+            s.push_str(&(0..m).map(|i| format!("f{}:\n", i)).collect::<String>());
+            s
+        });
         probe(&mut cases, &mut meta, "macro-nesting-chain", n, {
             let m = n.min(1500);
             let mut s = String::new();
@@ -259,6 +311,12 @@ pub fn run(tier: Tier) -> i32 {
             probe(&mut cases, &mut meta, "negative-org", n, format!(".org -{}\nnop\n", v));
             probe(&mut cases, &mut meta, "negative-byte", n, format!(".dseg\n.byte -{}\n", v));
             probe(&mut cases, &mut meta, "org-then-device", n, format!(".device ATtiny13\n.org {}\nnop\n", v));
+            // a position far beyond the device followed only by lines that occupy no space
+            probe(&mut cases, &mut meta, "org-then-set-only", n, format!(".device ATtiny13\nnop\n.org {}\n.set version_v = 3\n", v));
+            probe(&mut cases, &mut meta, "org-then-def-only", n, format!("nop\n.org {}\n.def tmp_r = r16\n", v));
+            probe(&mut cases, &mut meta, "org-then-label-only", n, format!("nop\n.org {}\nend_l:\n", v));
+            probe(&mut cases, &mut meta, "org-then-nothing", n, format!("nop\n.org {}\n", v));
+            probe(&mut cases, &mut meta, "eeprom-org-then-set-only", n, format!(".eseg\n.db 1\n.org {}\n.set version_v = 3\n", v));
         }
     }
     // include nesting (real files): a self-including file and chains
@@ -323,6 +381,9 @@ pub fn run(tier: Tier) -> i32 {
             Hard::Timeout => ("timeout", "no result within the watchdog limit".to_string(), String::new()),
         };
         *hard_seen.lock().unwrap().entry(kind).or_insert(0) += 1;
+        if std::env::var("VERIF_VERBOSE").is_ok() {
+            eprintln!("[{:7.1}s] {} {} ctx={} head={} probe={}", rep.elapsed(), kind, m.origin, m.ctx, m.head, m.probe);
+        }
         let shape = match m.origin {
             "size-probe" => format!("probe={}", m.probe.split("/n=").next().unwrap_or("")),
             "corpus-token-mutation" => format!("origin=corpus-token-mutation/head={}", m.head),
